@@ -1,8 +1,12 @@
 import Mamba.Proto
 import Mamba.Spec.Iso
+import Mamba.Model.Search
+import Mamba.Drv.C04
 /-! Driver for the protocols of C03 (see `harness/c03.go`):
 `c03chain <pred> <place> <m> <N> lv <level 0> … <level N>` → verdict of the verified checker `GSearch.checkLevels`;
-`c03cls <n> <m> <pred> <place>` → the tabulated number of isomorphism classes (`count=-` when not tabulated). -/
+`c03cls <n> <m> <pred> <place>` → the tabulated number of isomorphism classes (`count=-` when not tabulated);
+`c03fn <nv> <mask> tab <entry> …` → the verdict of the `Search` model's `isCanonical` and the masks its `addAugmentations`
+pushes for one graph (function-level correspondence, see `harness/c03fn.go`). -/
 namespace Drv.C03
 open GSearch Proto
 
@@ -79,6 +83,59 @@ def handleBig : List String → String
 /-- `c03sub <graph6 of H> <m> <place>`: exactly one graph on `|H|` vertices is an induced subgraph of `H` -/
 def handleSub : List String → String
   | [_h, _m, _place] => "top=1"
+  | _ => "bad-op"
+
+/-! ### `c03fn`: `isCanonical` / `addAugmentations` of the `Search` model on one graph -/
+
+def commaNats (s : String) : Option (Array Nat) :=
+  if s = "" then some #[] else ((s.splitOn ",").mapM (fun (t : String) => t.toNat?)).map (·.toArray)
+
+/-- one table entry `<vb|->:<perm|x>:<orbits>:<gens>` (comma separated numbers, generators separated by `.`) -/
+def fnEntry (nv mask : String) (t : Drv.C04.Table) (e : String) : Option Drv.C04.Table :=
+  match e.splitOn ":" with
+  | [vb, perm, orbits, gens] =>
+    let key := nv ++ ":" ++ mask ++ ":" ++ vb
+    if perm = "x" then some (t.insert key none)
+    else
+      match commaNats perm, (orbits.splitOn ",").mapM (fun t => t.toInt?),
+          (if gens = "" then some [] else (gens.splitOn ".").mapM commaNats) with
+      | some p, some os, some gs => some (t.insert key (some { perm := p, orbits := os.toArray, gens := gs }))
+      | _, _, _ => none
+  | _ => none
+
+/-- the graph with edge mask `mask` built from the one-vertex graph by `AddVertex`, as `Next` builds it -/
+def fnBuild (nv mask : Nat) : Outcome Search.DG :=
+  (List.range' 1 (nv - 1)).foldlM (m := Outcome) (fun g v =>
+    g.addVertex ((List.range v).filter fun u => mask.testBit (pairIndex u v))) Search.DG.empty.single
+
+def fnMasks (num : Nat) (a : Array Nat) : String :=
+  toString num ++ ":" ++ ",".intercalate (a.toList.map toString)
+
+def fnShow {α : Type} (r : Outcome α) (f : α → String) : String :=
+  match r with
+  | .ok x => f x
+  | .panic => "panic"
+  | .outOfFuel => "oracle-miss"
+
+def handleFn : List String → String
+  | nvs :: masks :: "tab" :: entries =>
+    match nvs.toNat?, masks.toNat?, entries.foldlM (fnEntry nvs masks) ({} : Drv.C04.Table) with
+    | some nv, some mask, some t =>
+      if nv < 2 then "bad-op" else
+      let O := Drv.C04.tableOracle t
+      match fnBuild nv mask with
+      | .ok g =>
+        let aug := (List.range (nv - 1)).filter fun u => mask.testBit (pairIndex u (nv - 1))
+        let fresh := fnShow (Search.addAugmentations O (nv + 1) g #[] none) fun (ch, _, num) => fnMasks num ch
+        match Search.isCanonical O (nv + 1) g aug none with
+        | .ok (cache, canon) =>
+          let after := if canon then fnShow (Search.addAugmentations O (nv + 1) g #[] cache) fun (ch, _, num) => fnMasks num ch
+            else "-"
+          "acc=" ++ (if canon then "1" else "0") ++ ";aug=" ++ after ++ ";fresh=" ++ fresh
+        | .panic => "panic"
+        | .outOfFuel => "oracle-miss"
+      | _ => "bad-op"
+    | _, _, _ => "bad-op"
   | _ => "bad-op"
 
 end Drv.C03
